@@ -186,7 +186,10 @@ def _run(args):
         repo = Repo(root, overlay={rel: text})
     except AnalysisError:
         return "unrecognised", []
-    ck = run_property(prop, repo, "quick")
+    try:
+        ck = run_property(prop, repo, "quick")
+    except Exception as e:          # an internal error of a rule on unusual code: exit 2 for the user, worth a look for us
+        return "crashed", [f"{type(e).__name__}: {e}"[:120]]
     if ck.violations:
         return "reported", sorted({v["rule"] for v in ck.violations})
     if ck.errors:
@@ -210,6 +213,11 @@ def sweep(prop, repo, funcs, jobs=16, limit=1500):
     triage = load_triage().get(prop, {})
     rep = sum(1 for r, _ in res if r == "reported")
     unr = sum(1 for r, _ in res if r == "unrecognised")
+    crashed = [(m[0], m[2], info) for m, (r, info) in zip(muts, res) if r == "crashed"]
+    for i, d, info in crashed:
+        print(f"MUTANT-CRASH {prop} {i} {d}: {info}")
+    res = [(r if r != "crashed" else "unrecognised", [] if r == "crashed" else x) for r, x in res]
+    unr = sum(1 for r, _ in res if r == "unrecognised")
     surv = [(m[0], m[2]) for m, (r, _) in zip(muts, res) if r == "survived"]
     untriaged = [(i, d) for i, d in surv if i not in triage]
     by_rule = {}
@@ -218,4 +226,4 @@ def sweep(prop, repo, funcs, jobs=16, limit=1500):
             by_rule[r] = by_rule.get(r, 0) + 1
     return {"mutants": len(muts), "reported": rep, "unrecognised": unr, "survived": len(surv), "survivors_triaged": len(surv) - len(untriaged),
             "survivors_untriaged": [f"{i} {d}" for i, d in untriaged], "reports_by_rule": by_rule,
-            "functions_mutated": sorted({f.qual for f in funcs})}
+            "functions_mutated": sorted({f.qual for f in funcs}), "checker_crashes": len(crashed)}
